@@ -1,5 +1,7 @@
 import RisorModel.Util
 import RisorModel.C03.Model
+import RisorModel.C20.Model
+import RisorModel.C20.Oracle
 /-! Line-protocol front end of the C03 model (fields after the leading `C03`).
 
 * `toks <runes> <a,b,eof[,len];…>`   runes = comma-separated code points (`-` = empty); per token
@@ -33,7 +35,13 @@ import RisorModel.C03.Model
 * `constexpr <prefix tokens>` (`n<decimal>`, `neg`, `add sub mul div mod xor shl shr band bor`) →
   `value <n>` | `error <why>` | `killed <why>`: `declRun implConst`
 * `inspect <heap> <value>` → `ok <hex of the rendering>` | `nofuel`
-* `equals <heap> <a> <b>` → `t|f|overflow` then `ranked=<bool>` -/
+* `equals <heap> <a> <b>` → `t|f|overflow` then `ranked=<bool>`
+* `front <src-utf8-hex>` (the runes of a source text as UTF-8, `-` = empty) →
+  `ok <class> <ntokens> <nrunes> <maxStop> <errcls>` for `ts := Risor.C20.lexAll src` (C20's lexer
+  machine, imported): class `eof` (the last element is the EOF token) | `lexerr` (it is an error
+  value) | `fuel` (neither: never, see FrontProps.lean); ntokens = `ts.length` (the final EOF /
+  error element included); nrunes = `src.length`; maxStop = the largest `.stop` of `ts`; errcls =
+  the error class or `-` -/
 namespace Risor.C03
 open Risor.Util
 
@@ -232,7 +240,28 @@ def parseFEv : String → Option FEv
 def showFRes : FRes → String
   | .ok => "ok" | .callerPanic _ => "callerPanic" | .killed _ => "killed"
 
+/-- how the token stream of `Risor.C20.lexAll` ends: class and error class -/
+def frontClass (ts : List Risor.C20.PTok) : String × String :=
+  match ts.getLast? with
+  | some t =>
+    match t.out with
+    | .tok k _ => if k == "EOF" then ("eof", "-") else ("fuel", "-")
+    | .errT _ _ c => ("lexerr", c)
+    | .err c => ("lexerr", c)
+  | none => ("fuel", "-")
+
+def frontReply (src : Risor.C20.Chars) : String :=
+  let ts := Risor.C20.lexAll src
+  let (cls, ec) := frontClass ts
+  let maxStop := ts.foldl (fun m t => max m t.stop) 0
+  "ok\t" ++ cls ++ "\t" ++ toString ts.length ++ "\t" ++ toString src.length ++ "\t" ++ toString maxStop
+    ++ "\t" ++ (if ec == "" then "-" else ec)
+
 def handle : List String → String
+  | ["front", h] =>
+    match Risor.C20.hexChars h with
+    | some src => frontReply src
+    | none => "error\tbad-hex"
   | ["file", mode, evs] =>
     let m : Option Bool := match mode with
       | "impl" => some false | "recording" => some true | _ => none
